@@ -231,8 +231,10 @@ def fingerprint(handles):
             for y in x:
                 walk(y)
         elif isinstance(x, Tree):
+            again = id(x) in ids
             out.append(('T', ids.setdefault(id(x), len(ids)), str(x.data), ids.setdefault(id(x._meta), len(ids)) if getattr(x, '_meta', None) is not None else -1))
-            walk(x.children)
+            if not again:       # a shared (or, when corrupted, cyclic) tree is described once; later visits are references
+                walk(x.children)
         elif isinstance(x, Token):
             out.append(('K', x.type, str(x), x.start_pos))
         else:
